@@ -25,7 +25,8 @@ RULE = ("E1+E3: ('rt', curve, key) for all 17 curves x 7 keys (scalar 1, n-1, 2 
         "+1} must decode or raise a documented error (UnexpectedDER, MalformedPointError, UnknownCurveError, ValueError, RuntimeError). "
         "Distinct = case tuples; decodes counted in 'measured'."
         " Decoded keys are encoded again in the default form and compared byte for byte with the original's default encoding (own encodings and OpenSSL-produced ones); a truncated / extended point string that an independent SEC 1 reader recognises as a complete valid encoding in another form must be read as exactly that point."
-        " An accepted single-byte mutant of a DER encoding must still be structurally sound (every element fits its container; the optional publicKey field of ECPrivateKey, documented as ignored, is exempt). ('elem', curve, enc): every element of the DER tree emptied / cut to one byte / shortened / extended with ALL enclosing lengths repaired, and every cut position with the enclosing lengths repaired while the innermost element stays truncated: documented error, or (only at an element boundary) a well-formed shorter value.")
+        " An accepted single-byte mutant of a DER encoding must still be structurally sound (every element fits its container; the optional publicKey field of ECPrivateKey, documented as ignored, is exempt). ('elem', curve, enc): every element of the DER tree emptied / cut to one byte / shortened / extended with ALL enclosing lengths repaired, and every cut position with the enclosing lengths repaired while the innermost element stays truncated: documented error, or (only at an element boundary) a well-formed shorter value."
+        ' The mutation family also runs EVERY single-byte mutation (all 255 other values per position; quick: the two smallest curves x encodings with explicit parameters, thorough: every curve and encoding); an accepted mutant whose changed byte is a length byte must not make its element overrun its container.')
 ASSUMPTIONS = [
     "documented decoder errors: UnexpectedDER, MalformedPointError, UnknownCurveError, ValueError (incl. binascii.Error), RuntimeError",
     "OpenSSL 3 CLI is the compatibility oracle; byte-identical re-encoding is required for SEC1/SPKI with named curve and uncompressed points",
